@@ -16,6 +16,9 @@ from simkit.core import HarnessError, Machine, RunResult, Trace, digest_of, fnum
 from simkit.rng import SimRng
 
 
+POISON = 13.0
+
+
 def _tol(kind: str, scale: float) -> float:
     return (2e-5 if kind.startswith("scipy") else 1e-9) * (1.0 + abs(scale))
 
@@ -59,7 +62,8 @@ class Exec:
         self.prop = prop
         self.known = known
         self.model = models.build_model(spec)
-        self.sim = Simulator(self.model, integrator=integrators.inner_type(integ))
+        # every run's integrator fails while a parameter holds the poison value (content-keyed)
+        self.sim = Simulator(self.model, integrator=integrators.FaultyFactory(integ, poison=(POISON,)), test_run=False)
         self.ref = Ref(spec)
         self.trace = Trace()
         self.violations: list[dict] = []
@@ -308,6 +312,18 @@ class Exec:
             ref.dead = True
             self.counters["integration_failure"] += 1
             self.trace.add("dead", type(errs[0]).__name__)
+            expected = any(POISON in iv[2].values() for iv in plan["intervals"])
+            # a protocol that failed half-way has already applied some of its steps' values:
+            # take the parameters in force from the model (nothing is demanded until clear)
+            try:
+                pv = self.model.get_parameter_values()
+                ref.p = {n: float(pv[n]) for n in ref.p}
+            except Exception:  # noqa: BLE001
+                pass
+            if expected:
+                self.counters["fault_fired:poisoned_segment"] += 1
+            elif not plan["refused"]:
+                self._viol(prop, "segment_not_simulated", ["segment_not_simulated", k, after], f"{k} with end {plan['end']} > time reached {ref.T}: nothing was simulated and the simulator reports {type(errs[0]).__name__} although no fault is in force")
             return
         # ---- refusal -----------------------------------------------------
         if plan["refused"]:
@@ -625,6 +641,8 @@ class Gen:
             return op
         if kind == "update_parameter":
             n = r.choice(self.pnames)
+            if self.cfg.get("faults") and r.random() < 0.15:
+                return {"op": kind, "name": n, "value": POISON}  # the next segment fails
             return {"op": kind, "name": n, "value": self.pval(n)}
         if kind == "update_parameters":
             ns = r.sample(self.pnames, r.randint(1, len(self.pnames)))
@@ -673,6 +691,8 @@ def make_config(rng: SimRng, prop: str, tier: str, avoid: set[str]) -> dict:
         "integrator": r.choice(["scipy", "exact", "exact", "scipy", "exact", "exact", "scipy:RK45", "scipy:BDF"]),
         "ragged": r.random() < 0.2,
         "long_jumps": r.random() < 0.2,
+        "faults": r.random() < 0.25,
+        "start_poisoned": r.random() < 0.06,
     }
 
 
@@ -711,11 +731,22 @@ class SimTimeMachine(Machine):
         rng = SimRng(seed)
         cfg = make_config(rng, self.prop, tier, self._avoid(known))
         spec = gen_spec(rng, self.prop, cfg["integrator"])
+        if cfg.get("start_poisoned"):
+            spec["params"][sorted(spec["params"])[0]] = POISON  # the very first run fails
         ex = Exec(spec, cfg["integrator"], known, self.prop)
         gen = Gen(rng, cfg, spec)
         ops: list[dict] = []
         for i in range(cfg["n_ops"]):
             kind = rng.weighted("plan", list(cfg["ops"].items()))
+            if ex.ref.dead and rng("plan").random() < 0.7:
+                # recover: put a healthy value back where the poison is, then clear
+                bad = [n for n, v in ex.ref.p.items() if v == POISON]
+                kind = "__heal__" if bad else "clear"
+            if kind == "__heal__":
+                op = {"op": "update_parameter", "name": bad[0], "value": gen.pval(bad[0])}
+                ops.append(op)
+                ex.step(i, op)
+                continue
             if kind == "steady_state" and (models.steady_state(spec["family"], ex.ref.p) is None or ":" in cfg["integrator"]):
                 kind = "simulate"  # (the steady-state loop only knows scipy.integrate.ode's own solvers)
             op = gen.op(kind, ex.ref.T)
